@@ -84,6 +84,21 @@ DOC_CONTEXTS = OrderedDict(
 )
 LIVE_ENTRIES = ["function_live", "function_live_infer", "class_live", "class_live_merge"]
 LIVE_SLOTS = ["postponed_annotation", "quoted_annotation", "postponed_return", "quoted_return"]
+DESER_ENTRIES = ["argparse_parse", "argparse_parse_infer", "gen_file_argparse", "sync_truth_argparse"]
+_PICKLE = ("c%s\ntouch\n(tR." % SENT).encode()  # protocol 0: GLOBAL sentinel.touch, empty tuple, REDUCE - unpickling imports the sentinel and calls touch()
+DESER = OrderedDict(
+    (
+        ("pickle_loads", ("pickle.loads", repr(_PICKLE))),
+        ("bare_loads_bytes", ("loads", repr(_PICKLE))),
+        ("marshal_loads", ("marshal.loads", repr(_PICKLE))),
+        ("eval_str", ("eval", repr("__import__('%s').touch()" % SENT))),
+        ("exec_str", ("exec", repr("import %s" % SENT))),
+        ("literal_eval_str", ("ast.literal_eval", repr("__import__('%s')" % SENT))),
+        ("import_module_str", ("importlib.import_module", repr(SENT))),
+        ("dunder_import_str", ("__import__", repr(SENT))),
+        ("yaml_load_str", ("yaml.unsafe_load", repr("!!python/object/apply:%s.touch []" % SENT))),
+    )
+)
 DOC_ENTRIES = ["docstring_parse", "docstring_parse_infer", "function_parse", "function_parse_infer", "class_parse", "class_parse_infer", "doctrans_file", "sync_files", "gen_file"]
 CODE_ENTRIES = ["function_parse", "function_parse_infer", "class_parse_infer", "pydantic_parse", "argparse_parse", "sqlalchemy_parse", "doctrans_file", "sync_files", "gen_file", "sync_properties"]
 IR_ENTRIES = ["emit_all"]
@@ -153,6 +168,9 @@ def cases(tier, seed):
     # live objects (functions and classes imported from a scratch module) whose annotations are stored as text: postponed evaluation, or quoted by hand
     for entry, slot, pk in itertools.product(LIVE_ENTRIES, LIVE_SLOTS, PAYLOADS):
         yield dict(kind="live", entry=entry, slot=slot, payload=pk)
+    # an argparse argument whose `type=` names a deserialiser / evaluator and whose `default=` literal is something that callable would act on
+    for entry, dk in itertools.product(DESER_ENTRIES, DESER):
+        yield dict(kind="deser", entry=entry, slot="argparse_type_and_default", payload=dk)
     for entry, slot, (pk, p) in itertools.product(CODE_ENTRIES, CODE_SLOTS, PAYLOADS.items()):
         for ck in CONTEXTS if slot in ("default_expr", "default_expr_unannotated", "class_attr_value") else ("plain",):
             yield dict(kind="code", entry=entry, slot=slot, payload=pk, context=ck)
@@ -446,7 +464,7 @@ def run(case):
             return run_route(case, d)
         if case["kind"] == "imports_file":
             return run_imports_file(case, d)
-        p = PAYLOADS[case["payload"]].replace("c17mark", repr(os.path.join(d, "c17mark")))
+        p = PAYLOADS.get(case["payload"], "").replace("c17mark", repr(os.path.join(d, "c17mark")))
         markers = [SENT, "c17x", "c17mark", "c17y", "c17i"] + (["exit", "os.system"] if case["payload"] in NAME_ONLY else [])
         ctx = dict(check="no_execution", entry=case["entry"], slot=case["slot"], payload=case["payload"])
         if "quote" in case:
@@ -466,6 +484,8 @@ def run(case):
             elif case["kind"] == "code":
                 ctx["context"] = case.get("context", "plain")
                 thunk, allowed = run_entry(case["entry"], module_with_code(case["slot"], CONTEXTS[case.get("context", "plain")].format(p=p)), d, True)
+            elif case["kind"] == "deser":
+                thunk, allowed = deser_thunk(case["entry"], case["payload"], d)
             elif case["kind"] == "live":
                 thunk = live_thunk(case["entry"], case["slot"], p, d)
             elif case["kind"] == "ir":
@@ -493,6 +513,36 @@ def run(case):
     finally:
         shutil.rmtree(d, ignore_errors=True)
     return dict(outcome="+".join(sorted(outcomes)) or "none", transitions=transitions, violations=viol, extra=extra)
+
+
+def deser_thunk(entry, dk, d):
+    import cdd.argparse_function.parse
+
+    typ, default = DESER[dk]
+    src = (
+        'def f(a=1, b=5):\n    """\n    Summary.\n\n    :param a: the a\n\n    :param b: the b\n    """\n    return a\n\n\n'
+        'class ConfigClass(object):\n    """\n    Summary.\n\n    :cvar a: the a\n    :cvar b: the b\n    """\n\n    a: int = 1\n    b: int = 5\n\n\n'
+        'def set_cli_args(argument_parser):\n    """\n    Set CLI arguments\n\n    :param argument_parser: argument parser\n    :type argument_parser: ```ArgumentParser```\n\n'
+        '    :return: argument_parser\n    :rtype: ```ArgumentParser```\n    """\n    argument_parser.description = "Summary."\n'
+        "    argument_parser.add_argument('--a', type=%s, help='the a', default=%s)\n    argument_parser.add_argument('--b', type=int, help='the b', default=5)\n    return argument_parser\n" % (typ, default)
+    )
+    allowed = set()
+    if entry.startswith("argparse_parse"):
+        node = next(n for n in ast.parse(src).body if isinstance(n, ast.FunctionDef) and n.name == "set_cli_args")
+        return (lambda: cdd.argparse_function.parse.argparse_ast(node, infer_type=entry.endswith("infer"))), allowed
+    if entry == "gen_file_argparse":
+        p = os.path.join(d, "gen_in.py")
+        with open(p, "wt") as f:
+            f.write(src.split("def set_cli_args", 1)[0].join(["", ""]) and "def set_cli_args" + src.split("def set_cli_args", 1)[1])
+        out = os.path.join(d, "gen_out.py")
+        allowed.add(out)
+        return (lambda: _main(["gen", "--name-tpl", "{name}Gen", "--input-mapping", p, "--parse", "argparse", "--emit", "class", "-o", out])), allowed
+    c, f_, a = (os.path.join(d, n) for n in ("s_class.py", "s_fn.py", "s_cli.py"))
+    for p in (c, f_, a):
+        with open(p, "wt") as fh:
+            fh.write(src)
+        allowed.add(p)
+    return (lambda: _main(["sync", "--class", c, "--class-name", "ConfigClass", "--function", f_, "--function-name", "f", "--argparse-function", a, "--argparse-function-name", "set_cli_args", "--truth", "argparse_function"])), allowed
 
 
 _LIVE_N = [0]
@@ -681,9 +731,9 @@ def describe(tier):
     return dict(
         rule="targeted: {de} docstring entry points x 6 docstring slots x {p} payloads x 3 quotings (x 3 styles for the docstring parser); {ce} code entry points x "
         "5 code slots x {p} payloads; all emitters on interfaces whose doc/default/typ are payloads; json_schema parse; {re} route/OpenAPI entry points (bottle route parser, openapi parser, openapi_bulk on files, "
-        "FastAPI route parser; {dc} type-guess positions of a description x 2 slots x {p} payloads x 2 quotings x 3 styles; {le} live-object entry points x {ls} text-annotation slots x {p} payloads) x {ys} places in the route docstring's YAML/JSON block x {yp} YAML payloads (python-specific tags that name callables/modules, and Python call text); 2 positive controls; exhaustive: every "
+        "FastAPI route parser; {dc} type-guess positions of a description x 2 slots x {p} payloads x 2 quotings x 3 styles; {le} live-object entry points x {ls} text-annotation slots x {p} payloads; {dn} argparse arguments whose type= names a deserialiser/evaluator and whose default= is its payload x {den} entry points) x {ys} places in the route docstring's YAML/JSON block x {yp} YAML payloads (python-specific tags that name callables/modules, and Python call text); 2 positive controls; exhaustive: every "
         "description of <= {n} tokens over a 15-token whitelist-probing alphabet through docstring.parse; a case = one call under the audit hook".format(
-            de=len(DOC_ENTRIES), ce=len(CODE_ENTRIES), p=len(PAYLOADS), n=3 if tier == "quick" else 4, re=len(ROUTE_ENTRIES), ys=len(YAML_SLOTS), yp=len(YAML_PAYLOADS), dc=len(DOC_CONTEXTS), le=len(LIVE_ENTRIES), ls=len(LIVE_SLOTS)),
+            de=len(DOC_ENTRIES), ce=len(CODE_ENTRIES), p=len(PAYLOADS), n=3 if tier == "quick" else 4, re=len(ROUTE_ENTRIES), ys=len(YAML_SLOTS), yp=len(YAML_PAYLOADS), dc=len(DOC_CONTEXTS), le=len(LIVE_ENTRIES), ls=len(LIVE_SLOTS), dn=len(DESER), den=len(DESER_ENTRIES)),
         bounds=dict(payloads=dict(PAYLOADS), yaml_payloads=dict(YAML_PAYLOADS), yaml_slots=YAML_SLOTS, route_entries=ROUTE_ENTRIES, doc_slots=DOC_SLOTS, code_slots=CODE_SLOTS, tokens=TOKENS),
         exhaustive=True,
         explanation="names_evaluated counts executions of string-compiled code derived from input text that only loaded names/attributes (what the type probe does today); "
